@@ -73,4 +73,13 @@ theorem chapter10_constants :
 /-- … it has `Chapter11` as its only base and defines nothing but those constants (no method overrides) -/
 theorem no_overrides : chapter10Bases = ["Chapter11"] ∧ chapter10Others = [] := by decide
 
+/-- (added by the rev2 review) non-vacuity of the `List.all` statements above: the generated tables are not empty — a
+    translator that silently read nothing would make every one of them true.  There are as many legacy modules as the
+    (hand-written) mapping names, every one binds at least one name from its counterpart, and `Chapter10` restates at
+    least one constant -/
+theorem tables_nonempty :
+    legacy.length = Spec.Namespace.targets.length ∧ 0 < legacy.length ∧
+    legacy.all (fun (_, stmts) => (bindings stmts).any (fun b => b.2.isSome)) = true ∧
+    0 < chapter10Assigns.length := by decide
+
 end Acra.Props.C19
